@@ -138,3 +138,28 @@ Theorem C03_response_chunking : forall cb g rq r (cuts : list (list bytes)) (bod
   c03_obs cb g [OpOpen; OpReqData (wr_request_wire rq); OpResData (sr_wire r cuts body)].
 Proof. rewrite c03_obs_is_sg_obs. exact sr_response_chunking_obs. Qed.
 Print Assumptions C03_response_chunking.
+
+(* ---- chunk-coded request bodies: any size lines of SBody's format (zero-padded / upper-case sizes, extensions, bare-LF line ends), trailer fields,
+        header and trailer fields in any folding, EVERY chunking: the same reported transaction (all fields), and the length fields are the decoded data
+        length and the wire length of the coded body as the code counts it ---- *)
+Require Import Htp.Spec.SBody Htp.Proof.PSegChunked Htp.Proof.PSegChunkedGen Htp.Proof.PSegChunkedRun Htp.Proof.PSegChunkedThm.
+Theorem C03_request_chunked_body_chunking : forall cb g r (ks : list bd_chunk) (last : bytes) (tr : list wr_field)
+    (cuts1 tcuts1 : list (list bytes)) (chunks1 : list bytes) (cuts2 tcuts2 : list (list bytes)) (chunks2 : list bytes),
+  wr_all_ok cb -> g_allow_space_uri g = false -> sg_chunked_ok g r = true ->
+  sg_cuts_ok r cuts1 = true -> sg_fold_fits g r cuts1 = true -> sg_cfbody_ok g ks last tr tcuts1 = true ->
+  Forall (fun x => x <> []) chunks1 -> concat chunks1 = sg_fold_wire r cuts1 ++ sg_cfbody_wire ks last tr tcuts1 ->
+  sg_cuts_ok r cuts2 = true -> sg_fold_fits g r cuts2 = true -> sg_cfbody_ok g ks last tr tcuts2 = true ->
+  Forall (fun x => x <> []) chunks2 -> concat chunks2 = sg_fold_wire r cuts2 ++ sg_cfbody_wire ks last tr tcuts2 ->
+  c03_obs cb g (OpOpen :: map OpReqData chunks1) = c03_obs cb g (OpOpen :: map OpReqData chunks2).
+Proof. rewrite c03_obs_is_sg_obs. exact sg_request_chunked_fold_trailer_chunking_obs. Qed.
+Print Assumptions C03_request_chunked_body_chunking.
+Theorem C03_request_chunked_body_lengths : forall cb g r (cuts : list (list bytes)) (ks : list bd_chunk) (last : bytes) (tr : list wr_field)
+    (tcuts : list (list bytes)) (chunks : list bytes),
+  wr_all_ok cb -> g_allow_space_uri g = false -> sg_chunked_ok g r = true -> sg_cuts_ok r cuts = true -> sg_fold_fits g r cuts = true ->
+  sg_cfbody_ok g ks last tr tcuts = true ->
+  Forall (fun x => x <> []) chunks -> concat chunks = sg_fold_wire r cuts ++ sg_cfbody_wire ks last tr tcuts ->
+  exists t, c_txs (fst (cp_run cb g connp_new (OpOpen :: map OpReqData chunks))) = [Some t] /\
+    t_request_entity_len t = Z.of_nat (length (bd_chunks_data ks)) /\
+    t_request_message_len t = Z.of_nat (length (bd_chunks_wire ks) + length last) /\ t_request_progress t = c_HTP_REQUEST_COMPLETE.
+Proof. exact sg_request_chunked_counted. Qed.
+Print Assumptions C03_request_chunked_body_lengths.
